@@ -96,6 +96,9 @@ Definition s_date := bs "date".
 Definition s_server_value := bs "Ioflo WSGI Server".
 Definition s_http11 := bs "HTTP/1.1 ".
 Definition s_200 := bs "200 OK".
+Definition s_http1_prefix := bs "HTTP/1.".
+Definition s_close := bs "close".
+Definition s_keep_alive := bs "keep-alive".
 Definition s_colon_sp : bytes := [58; 32].
 
 (* ---------- Responder ---------- *)
@@ -208,7 +211,7 @@ Record app := { a_status : bytes; a_headers : list header; a_pieces : list bytes
 (* Requestant.checkPersisted (for requests whose framing is valid) *)
 Definition persisted (q : req) : bool :=
   let conn := match r_conn q with Some c => lower c | None => [] end in
-  if r_v11 q then negb (contains (bs "close") conn) else contains (bs "keep-alive") conn.
+  if r_v11 q then negb (contains s_close conn) else contains s_keep_alive conn.
 
 (* one accepted connection: the Responder is created for the first request and
    reset for every later one; a non persistent request closes the connection after
@@ -339,7 +342,7 @@ Definition read_response (s : bytes) (eof : bool) : option (response * bytes) :=
     match split_at 32 line with
     | None => None
     | Some (ver, st) =>
-      if negb (prefix_eqb (bs "HTTP/1.") ver) then None else
+      if negb (prefix_eqb s_http1_prefix ver) then None else
       match read_headers (S (List.length s1)) s1 with
       | None => None
       | Some (hs, s2) =>
@@ -368,19 +371,16 @@ Definition read_response (s : bytes) (eof : bool) : option (response * bytes) :=
   end.
 
 Fixpoint read_all (fuel : nat) (s : bytes) (eof : bool) : option (list response) :=
-  match s with
-  | [] => Some []
-  | _ =>
-    match fuel with
-    | O => None
-    | S f =>
-      match read_response s eof with
+  if is_nil s then Some [] else
+  match fuel with
+  | O => None
+  | S f =>
+    match read_response s eof with
+    | None => None
+    | Some (r, rest) =>
+      match read_all f rest eof with
+      | Some l => Some (r :: l)
       | None => None
-      | Some (r, rest) =>
-        match read_all f rest eof with
-        | Some l => Some (r :: l)
-        | None => None
-        end
       end
     end
   end.
